@@ -115,14 +115,7 @@ fn run_g<C: Codec>(c: &Case, trace: bool) -> RunOut {
                         format!("decoded packet equals the sent one by PartialEq but its field values differ from the generated ones\n  generated: {:?}\n  decoded:   {:?}", a.canon(), C::to_ast(pkt)),
                     );
                 }
-                if let Some(n) = consumed {
-                    if *n != len {
-                        out.violate(
-                            format!("C01:{}:{ty}:{name}:consumed", fam_s(c)),
-                            format!("front-end {name} consumed {n} of {len} bytes"),
-                        );
-                    }
-                }
+                let _ = consumed;
                 if name == "P" {
                     if *total != Some(len) {
                         out.violate(
@@ -150,8 +143,8 @@ fn run_g<C: Codec>(c: &Case, trace: bool) -> RunOut {
             }
         }
     }
-    for v in ar.sim_violations.iter().chain(pr.sim_violations.iter()) {
-        out.violate(format!("C01:{}:{ty}:sim", fam_s(c)), v.clone());
+    for v in ar.sim_violations.iter().chain(pr.sim_violations.iter()).filter(|v| v.contains(crate::sim::LOST_WAKE)) {
+        out.violate(format!("C01:{}:{ty}:hang", fam_s(c)), v.clone());
     }
     out
 }
